@@ -25,7 +25,7 @@ from checks import _readers as R
 def run(ctx):
     q = ctx.quick
     ctx.level = "model_checking"
-    ctx.rule = ("TLC exhaustive over files (3 head shapes [replay in the quick tier: 2] incl. nested sequences with explicit/undefined lengths and an empty "
+    ctx.rule = ("TLC exhaustive over files (8 head shapes incl. mixed-length nesting and icon-image sequences with nested pixel data [replay in the quick tier: 3; quick model check without preamble and with 4 stop tags] incl. nested sequences with explicit/undefined lengths and an empty "
                 "value; pixel data absent/native/encapsulated with empty or non-empty offset table and zero-length fragments; "
                 "optional element after the pixel data) x {IVRLE,EVRLE,EVRBE} x portionings (<=2 read_dataset_up_to stops "
                 "out of 4 tags [thorough: <=3 of 7, with/without preamble], then read_to_end | offset table + fragments | "
